@@ -1,7 +1,7 @@
 #!/bin/sh
 # usage: try_mutant.sh <patch> <prop> [<prop>...]  : apply patch to /repo, run the quick checks, always undo
 P="$1"; shift
-git -C /repo apply "$P" || { echo "patch does not apply"; exit 3; }
+git -C /repo apply "$(realpath "$P")" || { echo "patch does not apply"; exit 3; }
 for p in "$@"; do
   ./vcheck "$p" --tier quick 2>&1 | grep -E "^(VIOLATION|ANALYSIS|KNOWN|  C[0-9]|C[0-9]+ )" | head -12
   echo "-> $p exit=$?"
